@@ -299,6 +299,10 @@ class Gen:
                 x = self.gen_diff(mc, info.get("bid", DIFF))
             else:
                 x = self.gen_scalar(mc, w, 0, (iname, port), allow_pr=allow_pr and w == shape, allow_nc=(kind == "inst"), todo=todo)
+        elif kind == "inst" and self.cfg["noconn"] and (iname, port) not in mc.referenced and ch.chance(1, 8):
+            # a no-connect on a bundle-valued port: the implicit bundle instance behind it is private
+            mc.nmemo += 1
+            x = ["nc", mc.nmemo, None]
         else:
             x = self.gen_bundle_val(mc, shape, 0, (iname, port), allow_pr=allow_pr, for_array=(kind != "inst"), todo=todo)
         how = how or ch.pick(["call", "setattr", "connect"], "connhow")
